@@ -1211,4 +1211,528 @@ theorem relLoop_genuine (ch now resend : Nat) (un : SMap Unacked) (seq avail : N
     (SendRel.getPackets_eq _ seq avail now)
   exact this
 
+/-! ### C13: exact encoded sizes -/
+
+theorem varintLen_eq (v : Nat) : (Varint.enc v).length = varintLen v := Varint.enc_length v
+
+theorem varintLen_le (v : Nat) : varintLen v ≤ 8 := by
+  unfold varintLen Varint.len?; split
+  · simp
+  · split
+    · simp
+    · split
+      · simp
+      · split <;> simp
+
+theorem varintLen_pos (v : Nat) : 1 ≤ varintLen v := by
+  unfold varintLen Varint.len?; split
+  · simp
+  · split
+    · simp
+    · split
+      · simp
+      · split <;> simp
+
+theorem varintLen_small (v : Nat) (h : v ≤ 16383) : varintLen v ≤ 2 := by
+  unfold varintLen Varint.len?; split
+  · simp
+  · simp [h]
+
+def relSerSum (l : List (Nat × Bytes)) : Nat := (l.map (fun x => relSer x.1 x.2)).sum
+def unrelSerSum (l : List Bytes) : Nat := (l.map unrelSer).sum
+
+@[simp] theorem relSerSum_nil : relSerSum [] = 0 := rfl
+@[simp] theorem relSerSum_append (a b : List (Nat × Bytes)) : relSerSum (a ++ b) = relSerSum a + relSerSum b := by
+  simp [relSerSum, List.sum_append]
+@[simp] theorem unrelSerSum_nil : unrelSerSum [] = 0 := rfl
+@[simp] theorem unrelSerSum_append (a b : List Bytes) : unrelSerSum (a ++ b) = unrelSerSum a + unrelSerSum b := by
+  simp [unrelSerSum, List.sum_append]
+
+theorem relSerSum_ge (l : List (Nat × Bytes)) : 2 * l.length ≤ relSerSum l := by
+  induction l with
+  | nil => simp
+  | cons x r ih =>
+    have h1 := varintLen_pos x.2.length
+    have h2 := varintLen_pos x.1
+    simp only [relSerSum, List.map_cons, List.sum_cons, List.length_cons, relSer] at *
+    omega
+
+theorem unrelSerSum_ge (l : List Bytes) : l.length ≤ unrelSerSum l := by
+  induction l with
+  | nil => simp
+  | cons x r ih =>
+    have h1 := varintLen_pos x.length
+    simp only [unrelSerSum, List.map_cons, List.sum_cons, List.length_cons, unrelSer] at *
+    omega
+
+theorem encSmallRel_len : ∀ (msgs : List (Nat × Bytes)), SmallRelWF msgs →
+    ∃ b, encSmallRel msgs = .ok b ∧ b.length = relSerSum msgs
+  | [], _ => ⟨[], rfl, rfl⟩
+  | (id, m) :: r, h => by
+    have hx := h (id, m) (by simp)
+    obtain ⟨b, hb, hl⟩ := encSmallRel_len r (fun y hy => h y (by simp [hy]))
+    refine ⟨Varint.enc id ++ Varint.enc m.length ++ m ++ b, ?_, ?_⟩
+    · simp [encSmallRel, putVarint_ok hx.1, putVarint_ok hx.2, hb]
+    · simp only [List.length_append, varintLen_eq, hl, relSerSum, List.map_cons, List.sum_cons, relSer]; omega
+
+theorem encSmallUnrel_len : ∀ (msgs : List Bytes), SmallUnrelWF msgs →
+    ∃ b, encSmallUnrel msgs = .ok b ∧ b.length = unrelSerSum msgs
+  | [], _ => ⟨[], rfl, rfl⟩
+  | m :: r, h => by
+    have hx := h m (by simp)
+    obtain ⟨b, hb, hl⟩ := encSmallUnrel_len r (fun y hy => h y (by simp [hy]))
+    refine ⟨Varint.enc m.length ++ m ++ b, ?_, ?_⟩
+    · simp [encSmallUnrel, putVarint_ok hx, hb]
+    · simp only [List.length_append, varintLen_eq, hl, unrelSerSum, List.map_cons, List.sum_cons, unrelSer]; omega
+
+theorem enc_smallReliable_len (seq ch : Nat) (msgs : List (Nat × Bytes)) (hs : seq ≤ Varint.MAX) (hm : SmallRelWF msgs) :
+    ∃ b, (Packet.smallReliable seq ch msgs).enc = .ok b ∧ b.length = 1 + varintLen seq + 1 + 2 + relSerSum msgs := by
+  obtain ⟨b, hb, hl⟩ := encSmallRel_len msgs hm
+  refine ⟨[0] ++ Varint.enc seq ++ [UInt8.ofNat ch] ++ u16be msgs.length ++ b, ?_, ?_⟩
+  · simp [Packet.enc, putVarint_ok hs, hb]
+  · simp only [List.length_append, varintLen_eq, hl, u16be, List.length_cons, List.length_nil]
+
+theorem enc_smallUnreliable_len (seq ch : Nat) (msgs : List Bytes) (hs : seq ≤ Varint.MAX) (hm : SmallUnrelWF msgs) :
+    ∃ b, (Packet.smallUnreliable seq ch msgs).enc = .ok b ∧ b.length = 1 + varintLen seq + 1 + 2 + unrelSerSum msgs := by
+  obtain ⟨b, hb, hl⟩ := encSmallUnrel_len msgs hm
+  refine ⟨[1] ++ Varint.enc seq ++ [UInt8.ofNat ch] ++ u16be msgs.length ++ b, ?_, ?_⟩
+  · simp [Packet.enc, putVarint_ok hs, hb]
+  · simp only [List.length_append, varintLen_eq, hl, u16be, List.length_cons, List.length_nil]
+
+def sliceEncLen (seq : Nat) (sl : Slice) : Nat :=
+  1 + varintLen seq + 1 + varintLen sl.messageId + varintLen sl.sliceIndex + varintLen sl.numSlices +
+    varintLen sl.payload.length + sl.payload.length
+
+theorem encSlice_len (sl : Slice) (h1 : sl.messageId ≤ Varint.MAX) (h2 : sl.sliceIndex ≤ Varint.MAX)
+    (h3 : sl.numSlices ≤ Varint.MAX) (h4 : sl.payload.length ≤ Varint.MAX) :
+    ∃ b, encSlice sl = .ok b ∧ b.length = varintLen sl.messageId + varintLen sl.sliceIndex + varintLen sl.numSlices +
+      varintLen sl.payload.length + sl.payload.length := by
+  refine ⟨Varint.enc sl.messageId ++ Varint.enc sl.sliceIndex ++ Varint.enc sl.numSlices ++ Varint.enc sl.payload.length ++ sl.payload, ?_, ?_⟩
+  · simp [encSlice, putVarint_ok h1, putVarint_ok h2, putVarint_ok h3, putVarint_ok h4]
+  · simp only [List.length_append, varintLen_eq]
+
+theorem enc_reliableSlice_len (seq ch : Nat) (sl : Slice) (hs : seq ≤ Varint.MAX) (h1 : sl.messageId ≤ Varint.MAX)
+    (h2 : sl.sliceIndex ≤ Varint.MAX) (h3 : sl.numSlices ≤ Varint.MAX) (h4 : sl.payload.length ≤ Varint.MAX) :
+    ∃ b, (Packet.reliableSlice seq ch sl).enc = .ok b ∧ b.length = sliceEncLen seq sl := by
+  obtain ⟨b, hb, hl⟩ := encSlice_len sl h1 h2 h3 h4
+  refine ⟨[2] ++ Varint.enc seq ++ [UInt8.ofNat ch] ++ b, ?_, ?_⟩
+  · simp [Packet.enc, putVarint_ok hs, hb]
+  · simp only [List.length_append, varintLen_eq, hl, List.length_cons, List.length_nil, sliceEncLen]; omega
+
+theorem enc_unreliableSlice_len (seq ch : Nat) (sl : Slice) (hs : seq ≤ Varint.MAX) (h1 : sl.messageId ≤ Varint.MAX)
+    (h2 : sl.sliceIndex ≤ Varint.MAX) (h3 : sl.numSlices ≤ Varint.MAX) (h4 : sl.payload.length ≤ Varint.MAX) :
+    ∃ b, (Packet.unreliableSlice seq ch sl).enc = .ok b ∧ b.length = sliceEncLen seq sl := by
+  obtain ⟨b, hb, hl⟩ := encSlice_len sl h1 h2 h3 h4
+  refine ⟨[3] ++ Varint.enc seq ++ [UInt8.ofNat ch] ++ b, ?_, ?_⟩
+  · simp [Packet.enc, putVarint_ok hs, hb]
+  · simp only [List.length_append, varintLen_eq, hl, List.length_cons, List.length_nil, sliceEncLen]; omega
+
+theorem descWF_length : ∀ (d : List AckRange) (prev : Nat), DescWF prev d → d.length ≤ prev
+  | [], _, _ => Nat.zero_le _
+  | (s, e) :: d, prev, hw => by
+    obtain ⟨a, b, c⟩ := hw
+    have := descWF_length d s c
+    simp only [List.length_cons]; omega
+
+theorem encAckRest_len : ∀ (d : List AckRange) (prev : Nat), prev ≤ Varint.MAX + 1 → DescWF prev d →
+    ∃ b, encAckRest prev d = .ok b ∧ b.length ≤ 16 * d.length
+  | [], _, _, _ => ⟨[], rfl, by simp⟩
+  | (s, e) :: d, prev, hp, hwf => by
+    obtain ⟨h1, h2, h3⟩ := hwf
+    obtain ⟨b, hb, hl⟩ := encAckRest_len d s (by omega) h3
+    have hgap : prev - e - 1 ≤ Varint.MAX := by omega
+    have hsize : e - 1 - s ≤ Varint.MAX := by omega
+    refine ⟨Varint.enc (prev - e - 1) ++ Varint.enc (e - 1 - s) ++ b, ?_, ?_⟩
+    · simp only [encAckRest, Res.csub]
+      have c1 : e ≤ prev := by omega
+      have c2 : 1 ≤ prev - e := by omega
+      have c3 : 1 ≤ e := by omega
+      have c4 : s ≤ e - 1 := by omega
+      simp [c1, c2, c3, c4, putVarint_ok hgap, putVarint_ok hsize, hb]
+    · have a1 := varintLen_le (prev - e - 1)
+      have a2 := varintLen_le (e - 1 - s)
+      simp only [List.length_append, varintLen_eq, List.length_cons]; omega
+
+/-- an encodable ack list with `k` ranges serialises into at most `1 + 8 + 8 + 8 + 8 + 16 (k - 1)` bytes -/
+theorem enc_ack_len (seq : Nat) (ranges : List AckRange) (hs : seq ≤ Varint.MAX) (hw : AckWF ranges) :
+    ∃ b, (Packet.ack seq ranges).enc = .ok b ∧ b.length ≤ 1 + 8 + 8 + 8 + 8 + 16 * (ranges.length - 1) := by
+  obtain ⟨ls, le, d, hrev, hlt, hle, hd⟩ := hw
+  obtain ⟨b, hb, hl⟩ := encAckRest_len d ls (by omega) hd
+  have c1 : 1 ≤ le := by omega
+  have c2 : ls ≤ le - 1 := by omega
+  have hle1 : le - 1 ≤ Varint.MAX := by omega
+  have hsz : le - 1 - ls ≤ Varint.MAX := by omega
+  have hlen : d.length ≤ Varint.MAX := by have := descWF_length d ls hd; omega
+  have hrl : ranges.length = d.length + 1 := by
+    have := congrArg List.length hrev
+    simpa using this
+  refine ⟨[4] ++ Varint.enc seq ++ Varint.enc (le - 1) ++ Varint.enc (le - 1 - ls) ++ Varint.enc d.length ++ b, ?_, ?_⟩
+  · simp [Packet.enc, putVarint_ok hs, hrev, Res.csub, c1, c2, putVarint_ok hle1, putVarint_ok hsz, putVarint_ok hlen, hb]
+  · have a1 := varintLen_le seq
+    have a2 := varintLen_le (le - 1)
+    have a3 := varintLen_le (le - 1 - ls)
+    have a4 := varintLen_le d.length
+    simp only [List.length_append, varintLen_eq, List.length_cons, List.length_nil, hrl]; omega
+
+/-! ### C13: sizes of what a reliable flush emits -/
+
+/-- well-formedness of one `unacked` entry as `send_message` creates it (`m.length ≤ 2^62-1` stands for "the length
+    is a machine integer the wire format can carry") -/
+def Unacked.WF : Unacked → Prop
+  | .small m _ => m.length ≤ SLICE_SIZE
+  | .sliced m n _ _ ak ls =>
+    n = divCeil m.length SLICE_SIZE ∧ 0 < m.length ∧ m.length ≤ Varint.MAX ∧ ak.length = n ∧ ls.length = n
+
+structure SendRel.WF (s : SendRel) : Prop where
+  nodup : (SMap.keys s.unacked).Nodup
+  ids : ∀ id u, (id, u) ∈ s.unacked → id < s.nextId
+  entries : ∀ id u, (id, u) ∈ s.unacked → u.WF
+
+theorem SendRel.WF.fit {s : SendRel} (h : s.WF) : SlicedFit s.unacked := by
+  intro id m n na nx ak ls hm
+  obtain ⟨rfl, _⟩ := h.entries _ _ hm
+  exact divCeil_mul_ge _
+
+/-- the small-message accumulator tracks the serialised size exactly and never exceeds `SLICE_SIZE + 10` -/
+def SmallAcc (g : GP) : Prop :=
+  g.smallBytes = relSerSum g.small ∧ g.smallBytes ≤ SLICE_SIZE + 10 ∧
+  ∀ p ∈ g.packets, ∀ sq c msgs, p = Packet.smallReliable sq c msgs → relSerSum msgs ≤ SLICE_SIZE + 10
+
+theorem SmallAcc_flushSmall (ch : Nat) (g : GP) (h : SmallAcc g) : SmallAcc (flushSmall ch g) := by
+  obtain ⟨h1, h2, h3⟩ := h
+  refine ⟨rfl, by simp [flushSmall], ?_⟩
+  intro p hp sq c msgs e
+  simp only [flushSmall, List.mem_append, List.mem_singleton] at hp
+  rcases hp with hp | hp
+  · exact h3 p hp sq c msgs e
+  · rw [hp] at e; cases e; omega
+
+theorem relSer_le (id : Nat) (m : Bytes) (h : m.length ≤ SLICE_SIZE) : relSer id m ≤ SLICE_SIZE + 10 := by
+  have h1 := varintLen_small m.length (by unfold SLICE_SIZE at h; omega)
+  have h2 := varintLen_le id
+  unfold relSer; omega
+
+theorem SmallAcc_admitSmall (ch id : Nat) (m : Bytes) (g : GP) (hm : m.length ≤ SLICE_SIZE) (h : SmallAcc g) :
+    SmallAcc (admitSmall ch id m g) := by
+  have hser := relSer_le id m hm
+  unfold admitSmall
+  split
+  · obtain ⟨h1, h2, h3⟩ := SmallAcc_flushSmall ch (charge m.length g) h
+    refine ⟨?_, ?_, h3⟩
+    · simp only [pushSmall, relSerSum_append, h1]; simp [relSerSum]
+    · simp only [pushSmall, flushSmall]; omega
+  · next hc =>
+    obtain ⟨h1, h2, h3⟩ := h
+    refine ⟨?_, ?_, h3⟩
+    · simp only [pushSmall, charge, relSerSum_append, h1]; simp [relSerSum]
+    · simp only [pushSmall, charge] at *; omega
+
+theorem SmallAcc_sliceStep (ch id : Nat) (msg : Bytes) (n i : Nat) (g : GP) (h : SmallAcc g) :
+    SmallAcc (sliceStep ch id msg n i g) := by
+  obtain ⟨h1, h2, h3⟩ := h
+  refine ⟨h1, h2, ?_⟩
+  intro p hp sq c msgs e
+  simp only [sliceStep, List.mem_append, List.mem_singleton] at hp
+  rcases hp with hp | hp
+  · exact h3 p hp sq c msgs e
+  · rw [hp] at e; cases e
+
+theorem relLoop_smallAcc (ch now resend : Nat) (un : SMap Unacked) (gp : GP)
+    (hun : ∀ id m ls, (id, Unacked.small m ls) ∈ un → m.length ≤ SLICE_SIZE) (h : SmallAcc gp) :
+    SmallAcc (relLoop ch now resend un gp).2 := by
+  refine relLoop_rel (fun g g' => SmallAcc g → SmallAcc g') (fun _ h => h) (fun a b c h1 h2 h => h2 (h1 h))
+    ch now resend un gp ?_ ?_ h
+  · intro g id m ls hm _ _; exact SmallAcc_admitSmall ch id m g (hun id m ls hm)
+  · intro g id m n na nx ak ls _
+    refine slicedLoop_rel (fun g g' => SmallAcc g → SmallAcc g') (fun _ h => h) (fun a b c h1 h2 h => h2 (h1 h))
+      ch id now resend m n nx ak (List.range n) ls nx g ?_
+    intro g i0 _ _; exact SmallAcc_sliceStep ch id m n _ g
+
+theorem SmallAcc_finishRel (ch : Nat) (g : GP) (h : SmallAcc g) : SmallAcc (finishRel ch g) := by
+  unfold finishRel; split
+  · exact h
+  · exact SmallAcc_flushSmall ch g h
+
+theorem mem_range'_lt {x s n : Nat} (h : x ∈ List.range' s n) : x < s + n := by
+  have := List.mem_range'_1.mp h; omega
+
+/-- every packet of a flush is numbered below the returned next sequence number -/
+theorem SendRel.getPackets_seq_lt {s s' : SendRel} {seq avail now seq' avail' : Nat} {ps : List Packet}
+    (h : s.getPackets seq avail now = (s', ps, seq', avail')) : ∀ p ∈ ps, p.sequence < seq' := by
+  obtain ⟨h1, h2⟩ := SendRel.getPackets_seq h
+  intro p hp
+  have : p.sequence ∈ ps.map Packet.sequence := List.mem_map.mpr ⟨p, hp, rfl⟩
+  rw [h1] at this
+  have := mem_range'_lt this
+  omega
+
+def smallPacketBound : Nat := 12 + SLICE_SIZE + 10
+def slicePacketBound : Nat := 1 + 8 + 1 + 8 + 8 + 8 + 2 + SLICE_SIZE
+
+/-- C13, reliable channel: with counters in varint range, every packet of a flush encodes without panic; a
+    small-message packet takes at most `12 + SLICE_SIZE + 10` bytes, a slice packet at most
+    `1 + 8 + 1 + 8 + 8 + 8 + 2 + SLICE_SIZE`. -/
+theorem SendRel.getPackets_sizes {s s' : SendRel} {seq avail now seq' avail' : Nat} {ps : List Packet}
+    (h : s.getPackets seq avail now = (s', ps, seq', avail')) (hwf : s.WF)
+    (hid : s.nextId ≤ Varint.MAX + 1) (hseq : seq' ≤ Varint.MAX + 1) :
+    ∀ p ∈ ps, ∃ b, p.enc = .ok b ∧
+      ((∃ sq msgs, p = Packet.smallReliable sq s.ch msgs ∧ b.length ≤ smallPacketBound) ∨
+       (∃ sq sl, p = Packet.reliableSlice sq s.ch sl ∧ b.length ≤ slicePacketBound)) := by
+  intro p hp
+  have hsq := SendRel.getPackets_seq_lt h p hp
+  have hem := SendRel.getPackets_emitted h p hp
+  have hacc : ∀ sq c msgs, p = Packet.smallReliable sq c msgs → relSerSum msgs ≤ SLICE_SIZE + 10 := by
+    have h' := h
+    rw [SendRel.getPackets_eq] at h'
+    simp only [Prod.mk.injEq] at h'
+    obtain ⟨_, rfl, _, _⟩ := h'
+    have := SmallAcc_finishRel s.ch _ (relLoop_smallAcc s.ch now s.resend s.unacked ⟨[], [], 0, seq, avail⟩
+      (fun id m ls hm => hwf.entries _ _ hm) ⟨rfl, by simp, by simp⟩)
+    exact this.2.2 p hp
+  rcases hem with ⟨sq, msgs, rfl, h1⟩ | ⟨sq, id, i, m, n, na, nx, ak, ls, nx', ls', rfl, h1, h2, _⟩
+  · have hsq' : sq ≤ Varint.MAX := by simp only [Packet.sequence] at hsq; omega
+    have hm : SmallRelWF msgs := by
+      intro x hx
+      obtain ⟨ls, hmem, _⟩ := h1 x hx
+      have a := hwf.ids _ _ hmem
+      have b : x.2.length ≤ SLICE_SIZE := hwf.entries _ _ hmem
+      unfold SLICE_SIZE at b; unfold Varint.MAX at *
+      exact ⟨by omega, by omega⟩
+    obtain ⟨b, hb, hl⟩ := enc_smallReliable_len sq s.ch msgs hsq' hm
+    refine ⟨b, hb, Or.inl ⟨sq, msgs, rfl, ?_⟩⟩
+    have := hacc sq s.ch msgs rfl
+    have := varintLen_le sq
+    unfold smallPacketBound; omega
+  · have hsq' : sq ≤ Varint.MAX := by simp only [Packet.sequence] at hsq; omega
+    have a := hwf.ids _ _ h1
+    obtain ⟨hn, hpos, hmax, _, _⟩ := hwf.entries _ _ h1
+    have hle := sliceBytes_length_le m n i (by rw [hn]; exact divCeil_mul_ge _)
+    have hnle : n ≤ m.length := by rw [hn]; exact divCeil_le _
+    obtain ⟨b, hb, hl⟩ := enc_reliableSlice_len sq s.ch ⟨id, i, n, sliceBytes m n i⟩ hsq' (by simp only; omega)
+      (by simp only; omega) (by simp only; omega) (by simp only; unfold SLICE_SIZE at hle; unfold Varint.MAX; omega)
+    refine ⟨b, hb, Or.inr ⟨sq, _, rfl, ?_⟩⟩
+    have b1 := varintLen_le sq
+    have b2 := varintLen_le id
+    have b3 := varintLen_le i
+    have b4 := varintLen_le n
+    have b5 := varintLen_small (sliceBytes m n i).length (by unfold SLICE_SIZE at hle; omega)
+    rw [hl]; unfold sliceEncLen slicePacketBound; simp only; omega
+
+/-- … and, when no message needs more than `MAX_NUM_SLICES` slices (1.2 GB), every packet of a reliable flush is
+    well-formed in the sense of the round-trip theorem (C16): the receiver decodes exactly what was sent. -/
+theorem SendRel.getPackets_wf {s s' : SendRel} {seq avail now seq' avail' : Nat} {ps : List Packet}
+    (h : s.getPackets seq avail now = (s', ps, seq', avail')) (hwf : s.WF) (hch : s.ch < 256)
+    (hid : s.nextId ≤ Varint.MAX + 1) (hseq : seq' ≤ Varint.MAX + 1)
+    (hbig : ∀ id m n na nx ak ls, (id, Unacked.sliced m n na nx ak ls) ∈ s.unacked → n ≤ MAX_NUM_SLICES) :
+    ∀ p ∈ ps, p.WF := by
+  intro p hp
+  have hsq := SendRel.getPackets_seq_lt h p hp
+  have hacc : ∀ sq c msgs, p = Packet.smallReliable sq c msgs → relSerSum msgs ≤ SLICE_SIZE + 10 := by
+    have h' := h
+    rw [SendRel.getPackets_eq] at h'
+    simp only [Prod.mk.injEq] at h'
+    obtain ⟨_, rfl, _, _⟩ := h'
+    have := SmallAcc_finishRel s.ch _ (relLoop_smallAcc s.ch now s.resend s.unacked ⟨[], [], 0, seq, avail⟩
+      (fun id m ls hm => hwf.entries _ _ hm) ⟨rfl, by simp, by simp⟩)
+    exact this.2.2 p hp
+  rcases SendRel.getPackets_emitted h p hp with ⟨sq, msgs, rfl, h1⟩ | ⟨sq, id, i, m, n, na, nx, ak, ls, nx', ls', rfl, h1, h2, _⟩
+  · have hsq' : sq ≤ Varint.MAX := by simp only [Packet.sequence] at hsq; omega
+    refine ⟨hsq', hch, ?_, ?_⟩
+    · have := hacc sq s.ch msgs rfl
+      have := relSerSum_ge msgs
+      unfold SLICE_SIZE at *; omega
+    · intro x hx
+      obtain ⟨ls, hmem, _⟩ := h1 x hx
+      have a := hwf.ids _ _ hmem
+      have b : x.2.length ≤ SLICE_SIZE := hwf.entries _ _ hmem
+      unfold SLICE_SIZE at b; unfold Varint.MAX at *
+      exact ⟨by omega, by omega⟩
+  · have hsq' : sq ≤ Varint.MAX := by simp only [Packet.sequence] at hsq; omega
+    have a := hwf.ids _ _ h1
+    obtain ⟨hn, hpos, hmax, _, _⟩ := hwf.entries _ _ h1
+    have hle := sliceBytes_length_le m n i (by rw [hn]; exact divCeil_mul_ge _)
+    have hnle : n ≤ m.length := by rw [hn]; exact divCeil_le _
+    have hp1 : 0 < (sliceBytes m n i).length := by
+      subst hn; exact sliceBytes_length_pos m i hpos h2
+    exact ⟨hsq', hch, by simp only; omega, by simp only; omega, by simp only; omega,
+      hbig id m n na nx ak ls h1, hp1, hle⟩
+
+/-! ### unreliable channel: what is emitted (C14 "dropped whole", C15-style genuineness) and sizes (C13) -/
+
+def UnrelPktOK (ch : Nat) (q : List Bytes) (sid0 sid : Nat) (all : List Packet) : Packet → Prop
+  | .smallUnreliable _ c msgs => c = ch ∧ unrelSerSum msgs ≤ SLICE_SIZE + 2 ∧ ∀ x ∈ msgs, x ∈ q ∧ x.length ≤ SLICE_SIZE
+  | .unreliableSlice _ c sl => c = ch ∧ sid0 ≤ sl.messageId ∧ sl.messageId < sid ∧
+      ∃ m ∈ q, SLICE_SIZE < m.length ∧ sl.numSlices = divCeil m.length SLICE_SIZE ∧ sl.sliceIndex < sl.numSlices ∧
+        sl.payload = sliceBytes m sl.numSlices sl.sliceIndex ∧
+        ∀ j, j < sl.numSlices →
+          ∃ sq, Packet.unreliableSlice sq ch ⟨sl.messageId, j, sl.numSlices, sliceBytes m sl.numSlices j⟩ ∈ all
+  | _ => False
+
+theorem UnrelPktOK.mono {ch : Nat} {q : List Bytes} {sid0 sid sid' : Nat} {all all' : List Packet} {p : Packet}
+    (h : UnrelPktOK ch q sid0 sid all p) (hs : sid ≤ sid') (ha : ∀ x ∈ all, x ∈ all') : UnrelPktOK ch q sid0 sid' all' p := by
+  cases p with
+  | smallUnreliable sq c msgs => exact h
+  | unreliableSlice sq c sl =>
+    obtain ⟨h1, h2, h3, m, hm, h4, h5, h6, h7, h8⟩ := h
+    refine ⟨h1, h2, by omega, m, hm, h4, h5, h6, h7, ?_⟩
+    intro j hj
+    obtain ⟨sq', hsq⟩ := h8 j hj
+    exact ⟨sq', ha _ hsq⟩
+  | smallReliable _ _ _ => exact h
+  | reliableSlice _ _ _ => exact h
+  | ack _ _ => exact h
+
+def UnrelInv (ch : Nat) (q : List Bytes) (sid0 : Nat) (g : GPU) : Prop :=
+  g.smallBytes = unrelSerSum g.small ∧ g.smallBytes ≤ SLICE_SIZE + 2 ∧ (∀ x ∈ g.small, x ∈ q ∧ x.length ≤ SLICE_SIZE) ∧
+  sid0 ≤ g.slicedId ∧ ∀ p ∈ g.packets, UnrelPktOK ch q sid0 g.slicedId g.packets p
+
+theorem UnrelInv_flushUnrel (ch : Nat) (q : List Bytes) (sid0 : Nat) (g : GPU) (h : UnrelInv ch q sid0 g) :
+    UnrelInv ch q sid0 (flushUnrel ch g) := by
+  obtain ⟨h1, h2, h3, h4, h5⟩ := h
+  refine ⟨rfl, by simp [flushUnrel], by simp [flushUnrel], h4, ?_⟩
+  intro p hp
+  simp only [flushUnrel, List.mem_append, List.mem_singleton] at hp
+  rcases hp with hp | rfl
+  · exact (h5 p hp).mono (Nat.le_refl _) (fun x hx => List.mem_append_left _ hx)
+  · exact ⟨rfl, by omega, h3⟩
+
+theorem unrelSer_le (m : Bytes) (h : m.length ≤ SLICE_SIZE) : unrelSer m ≤ SLICE_SIZE + 2 := by
+  have h1 := varintLen_small m.length (by unfold SLICE_SIZE at h; omega)
+  unfold unrelSer; omega
+
+theorem UnrelInv_unrelSmall (ch : Nat) (q : List Bytes) (sid0 : Nat) (m : Bytes) (g : GPU) (hq : m ∈ q)
+    (hm : m.length ≤ SLICE_SIZE) (h : UnrelInv ch q sid0 g) : UnrelInv ch q sid0 (unrelSmall ch m g) := by
+  have hser := unrelSer_le m hm
+  have hc : UnrelInv ch q sid0 (chargeU m g) := h
+  unfold unrelSmall
+  split
+  · obtain ⟨h1, h2, h3, h4, h5⟩ := UnrelInv_flushUnrel ch q sid0 (chargeU m g) hc
+    refine ⟨?_, ?_, ?_, h4, h5⟩
+    · simp only [pushUnrel, unrelSerSum_append, h1]; simp [unrelSerSum]
+    · simp only [pushUnrel, flushUnrel]; omega
+    · intro x hx
+      simp only [pushUnrel, List.mem_append, List.mem_singleton] at hx
+      rcases hx with hx | rfl
+      · exact h3 x hx
+      · exact ⟨hq, hm⟩
+  · next hcnd =>
+    obtain ⟨h1, h2, h3, h4, h5⟩ := hc
+    refine ⟨?_, ?_, ?_, h4, h5⟩
+    · simp only [pushUnrel, unrelSerSum_append, h1]; simp [unrelSerSum]
+    · simp only [pushUnrel, chargeU] at *; omega
+    · intro x hx
+      simp only [pushUnrel, List.mem_append, List.mem_singleton] at hx
+      rcases hx with hx | rfl
+      · exact h3 x hx
+      · exact ⟨hq, hm⟩
+
+theorem UnrelInv_unrelSliced (ch : Nat) (q : List Bytes) (sid0 : Nat) (m : Bytes) (g : GPU) (hq : m ∈ q)
+    (hm : SLICE_SIZE < m.length) (h : UnrelInv ch q sid0 g) : UnrelInv ch q sid0 (unrelSliced ch m g) := by
+  obtain ⟨h1, h2, h3, h4, h5⟩ := h
+  refine ⟨h1, h2, h3, by simp only [unrelSliced]; omega, ?_⟩
+  intro p hp
+  simp only [unrelSliced, List.mem_append] at hp
+  rcases hp with hp | hp
+  · exact (h5 p hp).mono (by simp only [unrelSliced]; omega) (fun x hx => by
+      simp only [unrelSliced]; exact List.mem_append_left _ hx)
+  · obtain ⟨i, hi, sq, rfl⟩ := mem_unrelSlices hp
+    refine ⟨rfl, h4, by simp only [unrelSliced]; omega, m, hq, hm, rfl, List.mem_range.mp hi, rfl, ?_⟩
+    intro j hj
+    obtain ⟨sq', hsq⟩ := unrelSlices_complete ch g.slicedId m (divCeil m.length SLICE_SIZE)
+      (List.range (divCeil m.length SLICE_SIZE)) g.seq j (List.mem_range.mpr hj)
+    exact ⟨sq', by simp only [unrelSliced]; exact List.mem_append_right _ hsq⟩
+
+theorem unrelLoop_inv (ch : Nat) (q : List Bytes) (sid0 : Nat) (g : GPU) (h : UnrelInv ch q sid0 g) :
+    UnrelInv ch q sid0 (unrelLoop ch q g) := by
+  refine unrelLoop_rel (fun g g' => UnrelInv ch q sid0 g → UnrelInv ch q sid0 g') (fun _ h => h)
+    (fun a b c h1 h2 h => h2 (h1 h)) ch q g ?_ ?_ ?_ h
+  · intro g m _ _ h; exact h
+  · intro g m hm _ h2; exact UnrelInv_unrelSliced ch q sid0 m g hm h2
+  · intro g m hm _ h2; exact UnrelInv_unrelSmall ch q sid0 m g hm h2
+
+theorem UnrelInv_finishUnrel (ch : Nat) (q : List Bytes) (sid0 : Nat) (g : GPU) (h : UnrelInv ch q sid0 g) :
+    ∀ p ∈ (finishUnrel ch g).packets, UnrelPktOK ch q sid0 (finishUnrel ch g).slicedId (finishUnrel ch g).packets p := by
+  unfold finishUnrel; split
+  · exact h.2.2.2.2
+  · obtain ⟨h1, h2, h3, h4, h5⟩ := h
+    intro p hp
+    simp only [List.mem_append, List.mem_singleton] at hp
+    rcases hp with hp | rfl
+    · exact (h5 p hp).mono (Nat.le_refl _) (fun x hx => List.mem_append_left _ hx)
+    · exact ⟨rfl, by omega, h3⟩
+
+/-- Everything one unreliable flush emits: small-message packets whose messages are queued messages of at most
+    `SLICE_SIZE` bytes; slice packets that are slice `i < n` of a queued message `m` longer than `SLICE_SIZE`,
+    `n = div_ceil(len, SLICE_SIZE)`, under a fresh message id — and then all `n` slices of `m` are in this flush. -/
+theorem SendUnrel.getPackets_emitted {s s' : SendUnrel} {seq avail seq' avail' : Nat} {ps : List Packet}
+    (h : s.getPackets seq avail = (s', ps, seq', avail')) :
+    s.slicedId ≤ s'.slicedId ∧ ∀ p ∈ ps, UnrelPktOK s.ch s.queue s.slicedId s'.slicedId ps p := by
+  rw [SendUnrel.getPackets_eq] at h
+  simp only [Prod.mk.injEq] at h
+  obtain ⟨rfl, rfl, _, _⟩ := h
+  have hinv := unrelLoop_inv s.ch s.queue s.slicedId ⟨[], [], 0, seq, avail, s.slicedId, s.mem⟩
+    ⟨rfl, by simp, by simp, Nat.le_refl _, by simp⟩
+  refine ⟨?_, UnrelInv_finishUnrel s.ch s.queue s.slicedId _ hinv⟩
+  have : (finishUnrel s.ch (unrelLoop s.ch s.queue ⟨[], [], 0, seq, avail, s.slicedId, s.mem⟩)).slicedId =
+      (unrelLoop s.ch s.queue ⟨[], [], 0, seq, avail, s.slicedId, s.mem⟩).slicedId := by
+    unfold finishUnrel; split <;> rfl
+  simp only [this]
+  exact hinv.2.2.2.1
+
+theorem SendUnrel.getPackets_seq_lt {s s' : SendUnrel} {seq avail seq' avail' : Nat} {ps : List Packet}
+    (h : s.getPackets seq avail = (s', ps, seq', avail')) : ∀ p ∈ ps, p.sequence < seq' := by
+  obtain ⟨h1, h2⟩ := SendUnrel.getPackets_seq h
+  intro p hp
+  have : p.sequence ∈ ps.map Packet.sequence := List.mem_map.mpr ⟨p, hp, rfl⟩
+  rw [h1] at this
+  have := mem_range'_lt this
+  omega
+
+def smallUnrelPacketBound : Nat := 12 + SLICE_SIZE + 2
+
+/-- C13, unreliable channel: with counters in varint range (and message lengths machine-representable), every packet
+    of a flush encodes without panic; small-message packets take at most `12 + SLICE_SIZE + 2` bytes, slice packets
+    at most `1 + 8 + 1 + 8 + 8 + 8 + 2 + SLICE_SIZE`. -/
+theorem SendUnrel.getPackets_sizes {s s' : SendUnrel} {seq avail seq' avail' : Nat} {ps : List Packet}
+    (h : s.getPackets seq avail = (s', ps, seq', avail'))
+    (hlen : ∀ m ∈ s.queue, m.length ≤ Varint.MAX)
+    (hid : s'.slicedId ≤ Varint.MAX + 1) (hseq : seq' ≤ Varint.MAX + 1) :
+    ∀ p ∈ ps, ∃ b, p.enc = .ok b ∧
+      ((∃ sq msgs, p = Packet.smallUnreliable sq s.ch msgs ∧ b.length ≤ smallUnrelPacketBound) ∨
+       (∃ sq sl, p = Packet.unreliableSlice sq s.ch sl ∧ b.length ≤ slicePacketBound)) := by
+  intro p hp
+  have hsq := SendUnrel.getPackets_seq_lt h p hp
+  have hok := (SendUnrel.getPackets_emitted h).2 p hp
+  cases p with
+  | smallUnreliable sq c msgs =>
+    obtain ⟨rfl, h1, h2⟩ := hok
+    have hsq' : sq ≤ Varint.MAX := by simp only [Packet.sequence] at hsq; omega
+    have hm : SmallUnrelWF msgs := by
+      intro x hx
+      have := (h2 x hx).2
+      unfold SLICE_SIZE at this; unfold Varint.MAX; omega
+    obtain ⟨b, hb, hl⟩ := enc_smallUnreliable_len sq _ msgs hsq' hm
+    refine ⟨b, hb, Or.inl ⟨sq, msgs, rfl, ?_⟩⟩
+    have := varintLen_le sq
+    unfold smallUnrelPacketBound; omega
+  | unreliableSlice sq c sl =>
+    obtain ⟨rfl, h1, h2, m, hm, h3, h4, h5, h6, _⟩ := hok
+    have hsq' : sq ≤ Varint.MAX := by simp only [Packet.sequence] at hsq; omega
+    have hle : sl.payload.length ≤ SLICE_SIZE := by
+      rw [h6]; exact sliceBytes_length_le m _ _ (by rw [h4]; exact divCeil_mul_ge _)
+    have hnle : sl.numSlices ≤ m.length := by rw [h4]; exact divCeil_le _
+    have hml := hlen m hm
+    obtain ⟨b, hb, hl⟩ := enc_unreliableSlice_len sq _ sl hsq' (by omega) (by omega) (by omega)
+      (by unfold SLICE_SIZE at hle; unfold Varint.MAX; omega)
+    refine ⟨b, hb, Or.inr ⟨sq, sl, rfl, ?_⟩⟩
+    have b1 := varintLen_le sq
+    have b2 := varintLen_le sl.messageId
+    have b3 := varintLen_le sl.sliceIndex
+    have b4 := varintLen_le sl.numSlices
+    have b5 := varintLen_small sl.payload.length (by unfold SLICE_SIZE at hle; omega)
+    rw [hl]; unfold sliceEncLen slicePacketBound; omega
+  | smallReliable _ _ _ => exact hok.elim
+  | reliableSlice _ _ _ => exact hok.elim
+  | ack _ _ => exact hok.elim
+
 end RenetVerif
